@@ -6,7 +6,7 @@
    condition `no_throws_kw` on conditions (citems of GrammarAllProofsItems.v). *)
 From Verif Require Import Base Regex Token TokEngine Headers Blocks Spec HeaderSpec LexShapes Grammar GrammarAll.
 From Verif Require Import GrammarProofsParen GrammarProofsBrace GrammarProofsHeaders GrammarAllProofsTok.
-From Verif Require Import GrammarAllProofsSel GrammarAllProofsCand GrammarAllProofsItems.
+From Verif Require Import GrammarAllProofsSel GrammarAllProofsCand GrammarAllProofsCb GrammarAllProofsItems.
 From Coq Require Import Sorted Permutation.
 Open Scope nat_scope.
 
@@ -238,6 +238,7 @@ Proof.
       * apply no_acc_single. apply plain_not_name. eapply symbol_not_name; exact Ho.
   - intros pre o flat cl B. apply (init_front_no_acc_gen _ _ cshift_plain fshift_throws).
     intros W HW. apply acc_cand_none, chain_plain, HW.
+  - intros a tail o body cl post semi R Hjs. discriminate Hjs.
   - intros pre B Hpre HB. apply (prefix_no_plain LJava); [exact Hpre | exact HB | apply cshift_plain | apply fshift_throws].
 Qed.
 
@@ -246,7 +247,7 @@ Theorem canonical_java_citems ts ds : citems no_throws_kw any_tokens LJava 0 ts 
 Proof.
   intros H.
   pose proof (canonical_two_shapes no_throws_kw any_tokens LJava cand_plain follow_throws cand_never follow_brace
-                oksel_java (good_oksel _ _ _ _ (good_never LJava)) head_split_java ts ds H) as HP.
+                oksel_java (good_oksel _ _ _ _ (good_never LJava) (fun _ _ => eq_refl)) head_split_java ts ds H) as HP.
   unfold shape_headers at 2 in HP. rewrite select_never, app_nil_r in HP.
   unfold lexical_headers_Java.
   rewrite (canonical_no_drop _ _ LJava ts ds _ H HP). exact HP.
